@@ -29,7 +29,9 @@ Qed.
 
 Theorem basic_item_no_panic : forall k len idx, no_panic (basic_item k len idx).
 Proof.
-  intros k len idx. unfold basic_item. destruct (len <=? usize_of_num idx); [destruct k; exact I | exact I].
+  intros k len idx. unfold basic_item.
+  destruct k; try (destruct (len <=? usize_of_num idx); exact I).
+  destruct (num_ltb idx (Int 0)); [exact I|]. destruct (len <=? usize_of_num idx); exact I.
 Qed.
 
 Lemma get_item_no_panic : forall i k len idx, no_panic (get_item i k len idx).
@@ -43,9 +45,12 @@ Proof.
     destruct (i32_as_usize v <? len) eqn:E.
     + intros H. inversion H. subst. apply N.ltb_lt. exact E.
     + destruct k; discriminate.
-  - unfold basic_item. destruct (len <=? usize_of_num idx) eqn:E.
-    + destruct k; discriminate.
-    + intros H. inversion H. subst. apply N.leb_gt in E. exact E.
+  - unfold basic_item.
+    destruct k; try (destruct (len <=? usize_of_num idx) eqn:E;
+                     [discriminate | intros H; inversion H; subst; apply N.leb_gt in E; exact E]).
+    destruct (num_ltb idx (Int 0)); [discriminate|].
+    destruct (len <=? usize_of_num idx) eqn:E; [discriminate|].
+    intros H. inversion H. subst. apply N.leb_gt in E. exact E.
 Qed.
 
 (* index_list / index_char_list / index_byte_list / index_symbol_list *)
@@ -68,7 +73,9 @@ Proof.
   destruct i; cbn [get_item].
   - cbn [simple_item]. rewrite i32_as_usize_nonneg by lia. rewrite N2Z.id.
     destruct (pos <? len) eqn:E; [reflexivity | apply N.ltb_ge in E; lia].
-  - unfold basic_item. rewrite usize_of_int_pos by lia. rewrite N2Z.id.
+  - unfold basic_item. rewrite num_ltb_int.
+    destruct (Z.of_N pos <? 0)%Z eqn:En; [lia|].
+    rewrite usize_of_int_pos by lia. rewrite N2Z.id.
     destruct (len <=? pos) eqn:E; [apply N.leb_le in E; lia | reflexivity].
 Qed.
 
